@@ -426,3 +426,50 @@ def mon_c12(run, world):
         if x[1] == "COMPLETED" and x[3] is not None and x[5] is not None and x[3] > x[5]:
             bad.append("task %s completed at %s, after its deadline %s, under %s with deadline enforcement" % (x[0], x[3], x[5], pol))
     return bad
+
+
+def mon_c10(run, world):
+    """the decisions every policy returned during whole simulations (C10's contract, implementation side)"""
+    bad = []
+    if world.get("fuzz"):
+        return bad          # the harness's own adversarial policy is not one of the bundled policies
+    pools = set()
+    info = graph_info(run)
+    last_offer = None
+    log = run["log"]
+    for e in log:
+        if e[0] == "cluster":
+            pools = {p[1] for p in e[1]}
+        elif e[0] == "offer":
+            last_offer = e
+        elif e[0] == "decisions":
+            now, decs = e[1], e[2]
+            if not e[4]:
+                bad.append("schedule() at %s changed the occupancy of the live cluster" % now)
+            if not e[5]:
+                bad.append("schedule() at %s changed the state of a task" % now)
+            seen = {}
+            offered = {o[0]: o[1] for o in last_offer[6]} if last_offer is not None and last_offer[1] == now else None
+            for d in decs:
+                kind, t = d[0], d[1]
+                if kind not in ("PLACE_TASK", "CANCEL_TASK"):
+                    continue
+                seen[t] = seen.get(t, 0) + 1
+                if d[2] in ("RUNNING", "COMPLETED", "CANCELLED", "EVICTED"):
+                    bad.append("decision at %s for task %s which is %s" % (now, t, d[2]))
+                if kind == "PLACE_TASK" and d[3] is not None:
+                    if d[3] not in pools:
+                        bad.append("placement of %s names the unknown pool %s" % (t, d[3]))
+                    if d[5] is None or d[5] < now:
+                        bad.append("placement of %s at %s, before now=%s" % (t, d[5], now))
+                    ti = info.get(t)
+                    if ti and d[6] is None and d[7] is not None and world["flags"]["scheduler"] != "Clockwork":   # (batch strategies are derived objects)
+                        bad.append("placement of %s reports a strategy that is not one of the task's" % t)
+            for t, c in seen.items():
+                if c > 1:
+                    bad.append("%d decisions for task %s in one invocation at %s" % (c, t, now))
+            if offered is not None:
+                for t, stt in offered.items():
+                    if stt in ("RELEASED", "VIRTUAL") and t not in seen and world["flags"]["scheduler"] in ("EDF", "FIFO", "LSF", "ILP", "TetriSched_Gurobi", "TetriSched_CPLEX"):
+                        bad.append("offered task %s got no answer from %s at %s" % (t, world["flags"]["scheduler"], now))
+    return bad
